@@ -160,3 +160,27 @@ Example C02_arity_nonvacuous :
   walkInput BigIntegerFromString (TCTuple [u8; u8] []) (XList [XJNum (ascii_bytes "1")]) = Err ETupleArrayMismatch /\
   walkInput BigIntegerFromString (TCTuple [u8; u8] []) (XMap [(ascii_bytes "0", XJNum (ascii_bytes "1"))]) = Err EMissingKey.
 Proof. cbv zeta. repeat split; vm_compute; reflexivity. Qed.
+
+(* 8. The two text spellings the property names, for the executable text parser used in the
+      correspondence run: a canonical decimal text ('-'? then digits, first digit non-zero) and a
+      0x-hex text ('-'? "0x" then hex digits in any case) are read as exactly the Horner value of
+      their digits - so by theorem 5 they are encoded as that integer's word when in range and refused
+      otherwise.  (The denotation of every other accepted spelling is property C19's subject.) *)
+From FFS Require Import Abi.InputProofs2.
+Theorem C02_decimal_and_hex_text_exact :
+  (forall (neg : bool) (d0 : N) (ds : list N),
+     (0 < d0 < 10)%N -> Forall (fun d => d < 10)%N ds ->
+     BigIntegerFromString ((if neg then [minus] else []) ++ map dec_char (d0 :: ds))%list
+     = Ok (let v := Z.of_N (horner 10 (d0 :: ds) 0) in if neg then (- v)%Z else v)) /\
+  (forall (neg : bool) (ds : list (bool * N)),
+     ds <> [] -> Forall (fun ud => snd ud < 16)%N ds ->
+     BigIntegerFromString ((if neg then [minus] else []) ++ x30 :: x78 :: map (fun ud => hex_char (fst ud) (snd ud)) ds)%list
+     = Ok (let v := Z.of_N (horner 16 (map snd ds) 0) in if neg then (- v)%Z else v)).
+Proof. split; [exact decimal_text_exact|exact hex_text_exact]. Qed.
+Print Assumptions C02_decimal_and_hex_text_exact.
+
+Example C02_text_nonvacuous :
+  map dec_char [2; 5; 5]%N = ascii_bytes "255" /\ horner 10 [2; 5; 5]%N 0 = 255%N /\
+  x30 :: x78 :: map (fun ud => hex_char (fst ud) (snd ud)) [(false, 15); (true, 15)]%N = ascii_bytes "0xfF" /\
+  horner 16 [15; 15]%N 0 = 255%N.
+Proof. repeat split; vm_compute; reflexivity. Qed.
